@@ -19,7 +19,7 @@ for id in $ids; do
   git -C $wt checkout -q -- . ; git -C $wt clean -fdq
   git -C $wt apply /verif/$d/patch.diff || { echo "$id: patch does not apply"; continue; }
   res=missed
-  for tier in quick thorough; do
+  for tier in ${TIERS:-quick thorough}; do
     t0=$(date +%s)
     out=$(timeout 5400 ./bin/gosym check --repo $wt --out $scratch --property $prop --tier $tier 2>&1)
     rc=$?
